@@ -176,6 +176,9 @@ def optional_field_cases(rng, quick):
     add("field set back to nil through an alias",
         "a.tow(b)\nal = a\nt: Car? = nil\nprint t ?= a.towing\nprint (get t) is b\nal.towing = nil\nprint t ?= a.towing\nprint t == nil\nprint a.towing == nil\nprint ((a.towing) or c) is c\n",
         ["true", "true", "false", "true", "true", "true"])
+    out.append({"family": "optional-object-field", "class": "optional-field:self-typed-variable-in-method", "what": "a method walks a chain of `Self?` fields with a `Self?` variable",
+                "src": OPT_CLASSES.replace("  fn borrow_from(", "  fn last(self) -> Self {\n    cur = self\n    nxt: Self? = nil\n    while nxt ?= cur.towing {\n      cur = get nxt\n    }\n    return cur\n  }\n  fn borrow_from(")
+                + "a.tow(b).tow(c)\nprint a.last().name\nprint (c.last()) is c\nprint (b.last()) is c\nd = Car(\"d\", nil)\nprint (d.last()) is d\n", "exp": ["c", "true", "true", "true"]})
     add("get / or / == nil on the optional fields of two objects",
         "print (get a.spare).size\nprint b.spare == nil\nprint ((b.spare) or s1) is s1\nprint ((c.spare) or s1) is s1\nw: Wheel? = nil\nprint w ?= c.spare\nprint w ?= b.spare\nprint w == nil\nprint w ?= a.spare\nprint (get w) is s1\n",
         ["15", "true", "true", "false", "true", "false", "true", "true", "true"])
